@@ -115,7 +115,10 @@ def analyse28(ck):
     ob.add({"C28"}, bool(defs) and all(d.startswith(COMMON + "::circuit::") for d in defs), "AGREE", "memprof/constants-same-items", "the profiler uses the common crate's constants, not copies", av.loc0, sorted(defs))
     h1 = av.rejects("Lt", lambda t: "rate_bits" in T.show(t, maxdepth=6) and "unwrap_or" in T.show(t, maxdepth=3), lambda t: (P.call_name(t) or "").endswith("config::log2_ceil"))
     h2 = av.rejects("Gt", lambda t: "num_routed_wires" in T.show(t, maxdepth=6), lambda t: "num_wires" in T.show(t, maxdepth=6) and "unwrap_or" in T.show(t, maxdepth=4))
-    zero = [g for g in av.gt if g["outcome"] <= {"err"} and "Eq" in T.show(g["cond"], maxdepth=2) and "elem" in T.show(g["cond"], maxdepth=4)]
+    # "some flag of the table is Some(0) → Err": a loop with an inner guard, `any`, or `find` + `if let Some`
+    zero = [g for g, coll, pred in av.exists_guards() if g["outcome"] <= {"err"} and isinstance(pred, tuple) and pred[0] == "bin" and pred[1] == "Eq"
+            and any(P.const_of(x) == 0 or (isinstance(x, tuple) and x and x[0] == "cdef") for x in (pred[2], pred[3]))   # `Some(0)` is a promoted constant
+            and any(s == ("elem", coll) for s in T.walk(pred))]
     ob.add({"C28"}, len(h1) == 1 and len(h2) == 1 and len(zero) >= 1, "AGREE", "memprof/effective-values",
            "the rate/quotient and routed/wires rules are evaluated on the effective (flag or baseline) values; zero flags are rejected", av.loc0, [T.show(g["cond"], maxdepth=4)[:120] for g in av.gt])
     lg = e2.MethodView(ck, r"^wormhole_memprof::config::log2_ceil$", "wormhole_memprof")
